@@ -169,6 +169,9 @@ func Packet(r *fw.Rand, c PacketClasses) *ref.Packet {
 	default:
 		pl = r.Range(0, 200)
 	}
+	if c.Payload >= 4 && r.Chance(1, 300) {
+		pl = r.Pick(65523, 65535, 65536, 65537, 70000) // datagrams beyond 64 KiB (jumbograms, or after reassembly by a lower layer)
+	}
 	p.Payload = r.Bytes(pl)
 	switch c.Pad {
 	case 0, 1:
